@@ -349,6 +349,35 @@ func genAdrDec(r *Rng, n int, w *bufio.Writer) {
 				x, _ := b32Encode(net.Blech32, data, enc)
 				b = []byte(x)
 			}
+		case k < 61: // one or two extra all-zero 5-bit groups before a correctly computed checksum:
+			// a second spelling of the same payload, which the regrouping must refuse
+			ver := byte(r.Intn(2))
+			plen := 32
+			if ver == 0 && r.Bool() {
+				plen = 20
+			}
+			prog := r.Bytes(plen)
+			extra := make([]byte, 1+r.Intn(2))
+			if r.Chance(70) {
+				conv, _ := blech32.ConvertBits(append(genKey33(r), prog...), 8, 5, true)
+				data := append(append([]byte{ver}, conv...), extra...)
+				enc := blech32.BLECH32
+				if (ver == 1) != r.Chance(10) {
+					enc = blech32.BLECH32M
+				}
+				x, _ := b32Encode(net.Blech32, data, enc)
+				b = []byte(x)
+			} else {
+				conv, _ := bech32.ConvertBits(prog, 8, 5, true)
+				data := append(append([]byte{ver}, conv...), extra...)
+				var x string
+				if ver == 0 {
+					x, _ = bech32.Encode(net.Bech32, data)
+				} else {
+					x, _ = bech32.EncodeM(net.Bech32, data)
+				}
+				b = []byte(x)
+			}
 		case k < 62: // version-1 programs of every admitted length, confidential or not, and mixed-case spellings
 			prog := r.Bytes(r.Pick(2, 20, 31, 32, 33, 40))
 			var x string
